@@ -58,7 +58,8 @@ ASSUMES = [
     "theorems about the record size are over the reals; binary64 rounding of duration/dt is validated by correspondence only",
     "record-level theorems assume a well-formed valid record without a constraint aliasing the record dimension (automatic for "
     "strict constraints; see obligation setter_alias_nonstrict_refuted for what happens otherwise)",
-    "value assignment (which can invalidate a non-live tensor) and range writes are outside the run-level invariant theorem",
+    "assignment of an initialised tensor through `value` (which can invalidate a non-live record) and range writes are outside the "
+    "run-level invariant theorem (de-initialising assignments - None / empty tensor - are inside)",
 ]
 EXPLANATION = ("Obligations: tie - each model function of the constraint bookkeeping equals the function generated from the source "
                "(gen_*_eq) and the independent specifications restated on the generated functions (gen_*_spec).  ShapedTensor level - dimensionality/consistency/compatibility tests equal independent specifications "
@@ -687,6 +688,36 @@ def oracle_record(case, tr):
                 for j in range(N0, N1):
                     if any(v != 0 for v in h1[j]):
                         return fail(i, op, "older_not_zero", k=j + 1, after=h1[j])
+        elif k == "setv":
+            # RecordTensor.value := v.  Refused only by ShapedTensor's setter (None over a parameter: RuntimeError; live
+            # attribute and a tensor neither ignored nor compatible: ValueError), then nothing changes.  Accepted: the
+            # storage is the assigned value; a de-initialising value (None / no elements and <= 1 dim) rewinds the pointer
+            # to 0, any other value leaves it alone.  Slots, constraints and temporal configuration are never touched.
+            v = op[1]
+            ign = v[0] in ("none", "empty") or shape_ignored([len(v[3])] + list(v[2]))
+            if e != 0:
+                why_param = case["param"] and v[0] == "none" and e == 1
+                why_live = case["live"] and not ign and e == 2 and not constraints_satisfied(
+                    [len(v[3])] + list(v[2]), pcons + [[0, pr[0]]], strict)
+                if not (why_param or why_live):
+                    return fail(i, op, "value_assignment_raises", error=e)
+                if cur != prev:
+                    return fail(i, op, "refused_value_assignment_side_effect", error=e)
+            else:
+                if case["param"] and v[0] == "none":
+                    return fail(i, op, "none_assigned_to_parameter")
+                if case["live"] and not ign and not constraints_satisfied([len(v[3])] + list(v[2]), pcons + [[0, pr[0]]], strict):
+                    return fail(i, op, "live_accepts_incompatible_value")
+                if cr[0] != pr[0] or ccons != pcons or (cdt, cdur, cincl) != (pdt, pdur, pincl):
+                    return fail(i, op, "value_assignment_changed_configuration")
+                want_kind = {"none": 0, "empty": 1, "full": 1 if ign else 2}[v[0]]
+                if cr[2] != want_kind or (want_kind == 2 and (cr[4] != list(v[2]) or cr[5] != [list(x) for x in v[3]])):
+                    return fail(i, op, "value_not_stored", stored=cr[2:5])
+                if cr[1] != (0 if ign else pr[1]):
+                    return fail(i, op, "pointer_after_value_assignment", pointer=cr[1], before=pr[1], deinitialising=ign)
+        elif k == "deinit":
+            if e != 0 or cr[1] != 0 or cr[2] != 1 or cr[0] != pr[0] or ccons != pcons:
+                return fail(i, op, "deinitialize", error=e, pointer=cr[1])
         elif k == "recon":
             key = op[1] + 1 if op[1] >= 0 else op[1]
             size = op[2]
